@@ -31,7 +31,7 @@ class except the model-cache state in per-type files. -/
 theorem C10_tables_clean_partial :
     TplFlowsC.lang.cleanFor Src.c10 = true ∧ TplFlowsCpp.lang.cleanFor Src.c10 = true ∧
     TplFlowsHtml.lang.cleanFor Src.c10 = true ∧
-    TplFlowsPy.lang.cleanFor [.siblings, .psUniqueName, .psMemo, .psTemplateCache] = true ∧
+    TplFlowsPy.lang.cleanFor [.siblings, .psUniqueName, .psMemo, .psTemplateCache, .psCompileFold, .psSharedMutable] = true ∧
     TplFlowsPy.lang.rootsCleanFor Src.c10 .namespace = true ∧
     TplFlowsPy.lang.rootsCleanFor Src.c10 .support = true := by decide +kernel
 
@@ -111,6 +111,12 @@ first Language object reused by a later one with another stropping prefix). -/
 example : (memoRunShared (fun (prefixLen : Nat) (tok : Nat) => prefixLen + tok) [] [(1, 7), (5, 7)]).1 = [8, 8] ∧
     [(1, 7), (5, 7)].map (fun q : Nat × Nat => q.1 + q.2) = [8, 12] := by decide
 
+/-- Source fact behind the `psCompileFold` sanitiser: templates are compiled lazily (no `get_template` in a generator
+constructor), i.e. never while counters of an earlier run are alive outside the per-file reset discipline; a
+constant-foldable stateful filter (the C++ `to_template_unique_name` is not marked volatile) in a template that is
+compiled at render time is then folded from the freshly reset state. -/
+theorem C10_templates_compiled_lazily_in_source : TplFlows.templatesCompiledLazily = true := by decide
+
 /-- `cached_property.__get__` keeps its value in `instance.__dict__` (read off the source by the translator). -/
 theorem C10_cached_property_per_instance_in_source : TplFlows.cachedPropertyPerInstance = true := by decide
 
@@ -159,7 +165,7 @@ theorem C10_limiter_builtin :
 theorem C10_fileOut_is_written_file (pps : List PP) (ss : List Nat) (chunks : List Str) :
     output pps ss chunks = (fileOut pps ss chunks.flatten).1 := by
   rw [C15_output_is_linewise]
-  simp [fileOut, pipeLinesSt_fst]
+  simp [fileOut, ProcState.pipeLinesSt_fst]
 
 /-! ### T7: the corollary -/
 
@@ -173,9 +179,9 @@ theorem C10_per_type_output_independent {δ : Type} (I : Interp δ) (P : List Tp
     (hl₁ : σ₁.counters.length = pps.length) (hl₂ : σ₂.counters.length = pps.length)
     (root : Nat) (hroot : root ∈ S) (d : δ)
     (hpp : resetPerFile = true ∨ firstLineNonBlank (render I P false d σ₁.amb fuel root []) = true) :
-    (genFile I P fuel resetPerFile pps σ₁ root d).1 = (genFile I P fuel resetPerFile pps σ₂ root d).1 := by
+    (ProcState.genFile I P fuel resetPerFile pps σ₁ root d).1 = (ProcState.genFile I P fuel resetPerFile pps σ₂ root d).1 := by
   have hraw := render_ni I P S hS d hamb fuel root [] hroot
-  unfold genFile
+  unfold ProcState.genFile
   simp only [← hraw]
   cases resetPerFile with
   | true => simp
@@ -194,8 +200,8 @@ theorem C10_output_independent_of_history {δ : Type} (I : Interp δ) (P : List 
     (hl₁ : σ₁.counters.length = pps.length) (hl₂ : σ₂.counters.length = pps.length)
     (pre₁ pre₂ : List (Job δ)) (j : Job δ) (hroot : j.root ∈ S)
     (hpp : resetPerFile = true ∨ ∀ a, firstLineNonBlank (render I P false j.decl a fuel j.root []) = true) :
-    (genFile I P fuel resetPerFile pps (runJobs I P fuel resetPerFile pps evolve σ₁ pre₁).2 j.root j.decl).1 =
-    (genFile I P fuel resetPerFile pps (runJobs I P fuel resetPerFile pps evolve σ₂ pre₂).2 j.root j.decl).1 := by
+    (ProcState.genFile I P fuel resetPerFile pps (runJobs I P fuel resetPerFile pps evolve σ₁ pre₁).2 j.root j.decl).1 =
+    (ProcState.genFile I P fuel resetPerFile pps (runJobs I P fuel resetPerFile pps evolve σ₂ pre₂).2 j.root j.decl).1 := by
   have i₁ := runJobs_invariant I P fuel resetPerFile pps evolve hev pre₁ σ₁ hl₁
   have i₂ := runJobs_invariant I P fuel resetPerFile pps evolve hev pre₂ σ₂ hl₂
   apply C10_per_type_output_independent I P S hS fuel resetPerFile pps _ _ _ i₁.2 i₂.2 j.root hroot j.decl
@@ -221,9 +227,9 @@ def exInterp : Interp Unit where
 example : closedClean Src.c10 exProgram [0] = true := by decide
 
 example :
-    (genFile exInterp exProgram 2 true [.limit 1] ⟨fun _ => 0, [0]⟩ 0 ()).1 =
-      (genFile exInterp exProgram 2 true [.limit 1] ⟨fun _ => 5, [3]⟩ 0 ()).1 ∧
-    (genFile exInterp exProgram 2 false [.limit 1] ⟨fun _ => 0, [0]⟩ 0 ()).1 ≠
-      (genFile exInterp exProgram 2 false [.limit 1] ⟨fun _ => 5, [3]⟩ 0 ()).1 := by decide
+    (ProcState.genFile exInterp exProgram 2 true [.limit 1] ⟨fun _ => 0, [0]⟩ 0 ()).1 =
+      (ProcState.genFile exInterp exProgram 2 true [.limit 1] ⟨fun _ => 5, [3]⟩ 0 ()).1 ∧
+    (ProcState.genFile exInterp exProgram 2 false [.limit 1] ⟨fun _ => 0, [0]⟩ 0 ()).1 ≠
+      (ProcState.genFile exInterp exProgram 2 false [.limit 1] ⟨fun _ => 5, [3]⟩ 0 ()).1 := by decide
 
 end NunavutVerif.C10
